@@ -100,6 +100,7 @@ func (g *G) spawn(cl *Closure, args []Value, fr *Frame, pos token.Pos) *G {
 	if r.raceOn {
 		g.vcTick()
 		ng.vc = g.vc.copy()
+		ng.vcTick() // the child's own component: what it does is not ordered before later children of its parent
 	}
 	r.startG(ng, func() { ng.callFn(cl, args, nil, pos) })
 	// creating a goroutine is a scheduling point
